@@ -5,6 +5,7 @@ CONSTANTS
   MaxEvents = 1
   Faithful = TRUE
   Macro = FALSE
+  EnvAts = {1, 2}
   EnvFaults = {"401"}
   BodyFaults = {}
   ParseFaults = {"garbage"}
